@@ -30,7 +30,15 @@ def case(runner, r, base, i, profile, rich_ok, malformed, oc, ereqs, epend, sreq
     if r.random() < 0.3:
         model = engtpl.with_eventless_rows(r, model)
         oc.stat("tables_with_rows_without_event")
+    if i % 40 == 5:
+        # more elements than the letter cycle has letters (a..z, A..Z, then a again): 53-70 interface structs, which are
+        # also stateless events - every per-struct / per-event block still has one expansion per element
+        model = dict(model, iface=dict(model["iface"], structs=list(model["iface"]["structs"]) + [("EventBulk%02d" % j, []) for j in range(r.randint(53, 70))]))
+        oc.stat("models_with_more_than_52_elements")
     tpl = engtpl.rand_template(r, profile, rich_ok=rich_ok)
+    if i % 40 == 5:
+        for kind in ("STRUCT", "PE"):
+            tpl[0]["items"].append(engtpl.rand_block(r, kind, rich=False))
     if model["iface"].get("enums") and r.random() < 0.7:
         # the multi-line global value on a line of its own, indented by spaces, TABs or both, with or without text around it
         segs = [["lit", r.choice(["", "    ", "  ", "\t", "\t    ", "  \t", "        "])]] + ([["lit", r.choice(["// ", "x", "enums: "])]] if r.random() < 0.3 else []) \
